@@ -6,8 +6,8 @@ package main
 // error (or panics) — it never reaches a clean return.
 
 import (
-	"go/constant"
 	"fmt"
+	"go/constant"
 	"go/token"
 	"go/types"
 	"strings"
